@@ -56,7 +56,7 @@ FullMenu ==
           [op |-> "iadd", x |-> L(<<S("n")>>)], [op |-> "remove", x |-> S("i1")], [op |-> "reverse"],
           [op |-> "clear"], [op |-> "reset", x |-> L(<<S("i2")>>)], [op |-> "reset", x |-> EmptyL]}
 
-Menu == IF Tiny THEN {o \in FullMenu : o.op \in TinyOps /\ (o.op = "setitem" => o.x = S("i2"))
+Menu == IF Tiny THEN {o \in FullMenu : o.op \in TinyOps /\ (o.op = "setitem" => (o.x = S("i2") \/ (~Micro /\ "k" \in DOMAIN o /\ o.k = "b")))
                                           /\ (o.op = "reset" => o.x # Empty) /\ (o.op = "getitem" => "k" \in DOMAIN o \/ o.i = 0)
                                           /\ (o.op = "append" => o.x = S("i1"))}
         ELSE FullMenu
